@@ -93,4 +93,21 @@ def routesOK (rs : List String) : Bool :=
 
 theorem config_routes_match_source : routesOK Gen.adminRoutes = true := by decide
 
+/-- the pooled buffer a GET is encoded into stays checked out until the response has been
+    written: the body is written (`w.Write`), and every `bufferPool.Put` is a deferred call of a
+    function that itself performs that write — it cannot run while `buf.Bytes()` is still to be
+    sent. (Handed back earlier, an overlapping GET re-uses the buffer and overwrites the bytes
+    of the first; the `gg` op exhibits that on the real handler.) -/
+def bufferScopeOK (evs : List (String × String)) : Bool :=
+  evs.any (fun e => e.2 == "Write") && evs.any (fun e => e.2 == "Get") &&
+  evs.all fun e => (e.2 != "Put" && e.2 != "defer:Put") ||
+    (e.2 == "defer:Put" && evs.any (fun w => w.2 == "Write" && w.1 == e.1))
+
+theorem response_buffer_scope_matches_source : bufferScopeOK Gen.responseBuffer = true := by decide
+
+-- non-vacuity: the Put deferred in a helper that returns before the handler writes
+example : bufferScopeOK [("readConfigWithEtag", "Get"), ("readConfigWithEtag", "defer:Put"), ("handleConfig", "Write")] = false := by decide
+-- … while a helper that does all three is fine
+example : bufferScopeOK [("serveConfigGET", "Get"), ("serveConfigGET", "defer:Put"), ("serveConfigGET", "Write")] = true := by decide
+
 end CaddyModel.C12
